@@ -2,6 +2,7 @@
 import ast
 
 from ..core import astutil as A
+from ..core import match as M
 from ..core.model import dotted
 
 META = {
@@ -41,32 +42,34 @@ def run(ctx):
     ctx.check("R1", gi, walks_front_to_back and len(grow) >= 1 and not lifo, f"fifo-worklist:{[o for o, _ in ops]}", "newly found sections are appended at the tail of the worklist being walked front to back (breadth-first)",
               f"the worklist is manipulated with {[o for o, _ in ops]}: sections are no longer visited breadth-first, so a deeper definition can win over a nearer one", node=lp)
     ret = A.returns(gi.node)[-1]
-    ctx.check("R1", gi, f"for (name, stack) in {wl}" in A.unparse(ret.value).replace("for name, stack in", "for (name, stack) in") and "_section_data(name, stack[0])" in A.unparse(ret.value), "result-in-visit-order", "the result lists the sections in visiting order, each represented by the front of its stack")
+    ctx.check("R1", gi, M.pat(f"[_section_data($n, $st[0]) for ($n, $st) in {wl}]").matches(ret.value) is not None, "result-in-visit-order", "the result lists the sections in visiting order, each represented by the front of its stack")
     ctx.floor("R1", 3)
 
     # ---- R2 first match --------------------------------------------------------------------------------------
     rv = P.func(MOD, "_ConfigStack.render_value")
-    loops2 = [n for n in rv.node.body if isinstance(n, ast.For)]
-    ok = len(loops2) == 1 and A.unparse(loops2[0].iter) == "self.get(key, ())" and isinstance(loops2[0].body[0], ast.If) and A.unparse(loops2[0].body[0].test) == "key in data.section" and isinstance(loops2[0].body[0].body[0], ast.Return)
+    ok = M.has(rv.node, "for $d in self.get(key, ()):\n    if key in $d.section:\n        return $d.section.render_value(manager, key, type_name)")
     ctx.check("R2", rv, ok, "first-defining-section-wins", "the first candidate (in visiting order) that defines the key supplies the value",
               "_ConfigStack.render_value no longer returns the FIRST section defining the key", node=rv.node)
-    ctx.check("R2", rv, isinstance(rv.node.body[-1], ast.Return) and A.is_const(rv.node.body[-1].value, None), "undefined-is-none", "a key nobody defines renders as None")
+    ctx.check("R2", rv, A.is_const(A.returns(rv.node)[-1].value, None) and len(A.returns(rv.node)) == 2, "undefined-is-none", "a key nobody defines renders as None")
     cs = P.func(MOD, "ConfigManager.collapse_section")
     t = A.unparse(cs.node)
-    ctx.check("R2", cs, "for data in relevant_sections:\n        for key in data.section.keys():\n            config_stack[key].append(data)" in t, "stacks-in-visit-order", "per-key candidate stacks are filled in visiting order (append)",
+    walk = M.one(cs.node, "$rel = self._get_inherited_sections(_name, sections)\n$stk = _ConfigStack()\nfor $d in $rel:\n    for $k in $d.section.keys():\n        $stk[$k].append($d)")
+    ctx.check("R2", cs, walk is not None, "stacks-in-visit-order", "per-key candidate stacks are filled in visiting order (append)",
               "collapse_section no longer fills the per-key stacks by appending in visiting order", node=cs.node)
-    ctx.check("R2", cs, "relevant_sections = self._get_inherited_sections(_name, sections)" in t, "uses-inheritance-walk", "collapse uses the inheritance walk")
-    ctx.check("R2", cs, "for key in ('inherit', 'inherit-only', 'class', 'default'):\n        config_stack.pop(key, None)" in t, "bookkeeping-keys-dropped", "inherit/inherit-only/class/default are not handed on as settings")
+    ctx.check("R2", cs, M.has(cs.node, "$rel = self._get_inherited_sections(_name, sections)"), "uses-inheritance-walk", "collapse uses the inheritance walk")
+    ctx.check("R2", cs, walk is not None and M.has(cs.node, "for $k2 in ('inherit', 'inherit-only', 'class', 'default'):\n    $stk.pop($k2, None)", {"stk": walk["stk"]}), "bookkeeping-keys-dropped", "inherit/inherit-only/class/default are not handed on as settings")
     ctx.floor("R2", 5)
 
     # ---- R3 source shadowing ------------------------------------------------------------------------------------------
     ac = P.func(MOD, "ConfigManager._integrate_config_source")
     ta = A.unparse(ac.node)
-    ctx.check("R3", ac, "self.sections_lookup[name].appendleft(config_data[name])" in ta, "newer-source-in-front", "a later config source's section is pushed in front of the older ones of the same name",
+    ctx.check("R3", ac, M.has(ac.node, "for $n in $cd:\n    self.sections_lookup[$n].appendleft($cd[$n])"), "newer-source-in-front", "a later config source's section is pushed in front of the older ones of the same name",
               "_integrate_config_source no longer pushes a later source section in front: earlier sources win", node=ac.node)
     tg = A.unparse(gi.node)
-    ctx.check("R3", gi, "current_conf = section_stack[0]" in tg, "front-of-stack-used", "the front (newest) section of a name is the one consulted")
-    ctx.check("R3", gi, "section_stack[1:]" in tg and "list(section_stack)[1:]" in tg, "self-inherit-continues-below", "a self-inherit continues with the older definitions of the same name")
+    fr = M.one(lp, "$conf = $stack[0]\nif 'inherit' not in $conf:\n    continue")
+    ctx.check("R3", gi, fr is not None and isinstance(lp, ast.For) and fr["stack"] in A.names_in(lp.target), "front-of-stack-used", "the front (newest) section of a name is the one consulted")
+    sv = fr["stack"] if fr else "section_stack"
+    ctx.check("R3", gi, M.has(lp, f"{wl}.append(($i, {sv}[1:]))") or M.has(lp, f"{wl}.append(($i, list({sv})[1:]))"), "self-inherit-continues-below", "a self-inherit continues with the older definitions of the same name")
     ctx.floor("R3", 3)
 
     # ---- R4 error exits -------------------------------------------------------------------------------------------------
@@ -77,10 +80,14 @@ def run(ctx):
         raises[msg] = conds
     def has(fragment, cond):
         return any(fragment in m and any(cond in c for c in cs_) for m, cs_ in raises.items())
-    ctx.check("R4", gi, has("is recursive", "inherit in inherit_names"), "recursion-error", "a name met twice is reported as recursive", "the recursive-inherit error is gone or no longer guarded by the visited-names test", node=gi.node)
-    ctx.check("R4", gi, has("cannot be found", "target is None"), "missing-target-error", "an unknown inherit target is reported")
-    ctx.check("R4", gi, has("Self-inherit", "len(section_stack) == 1"), "self-inherit-error", "a self-inherit with nothing below it is reported")
-    ctx.check("R4", gi, "inherit_names.add(inherit)" in tg and f"inherit_names = {{{name}}}" in tg, "visited-set", "visited names start with the section itself and grow with every new target")
+    vis = M.one(gi.node, f"$seen = {{{name}}}")
+    E = dict(vis.env) if vis else {}
+    rec = M.one(lp, "if $i in $seen:\n    raise errors.ConfigurationError($_)\n$seen.add($i)", E)
+    ctx.check("R4", gi, vis is not None and rec is not None, "recursion-error", "a name met twice is reported as recursive", "the recursive-inherit error is gone or no longer guarded by the visited-names test", node=gi.node)
+    ctx.check("R4", gi, M.has(lp, "$t = self.sections_lookup.get($i)\nif $t is None:\n    raise errors.ConfigurationError($_)"), "missing-target-error", "an unknown inherit target is reported",
+              "an unknown inherit target is no longer reported as an error", node=gi.node)
+    ctx.check("R4", gi, M.has(lp, f"if len({sv}) == 1:\n    raise errors.ConfigurationError($_)"), "self-inherit-error", "a self-inherit with nothing below it is reported")
+    ctx.check("R4", gi, vis is not None and rec is not None, "visited-set", "visited names start with the section itself and grow with every new target")
     ctx.floor("R4", 4)
 
 
